@@ -21,7 +21,8 @@ Inductive op :=
 | OCopy (dst src : nat)
 | OSafeT (t : nat) (axes : list Z)
 | ORollAxis (t : nat) (axis start : Z) (safe : bool)
-| OApiTranspose (t : nat) (axes : list Z).
+| OApiTranspose (t : nat) (axes : list Z)
+| OReshape (t : nat) (dims : list Z) (refused : bool).
 
 Inductive outcome := RUnit | RVal (v : V) | RNew (t : nat) | RErr | RPanic.
 
@@ -49,6 +50,12 @@ Definition step_model (σ : store V) (o : op) : store V * outcome :=
   | OSafeT t axes => lift_new σ (m_safeT V σ t axes)
   | ORollAxis t axis start safe => lift_new σ (m_rollaxis V σ t axis start safe)
   | OApiTranspose t axes => lift_new σ (m_api_transpose V σ t axes)
+  | OReshape t dims _ =>
+    match m_reshape V σ t dims with
+    | Ok (σ', refused) => (σ', if refused then RErr else RUnit)
+    | Err => (σ, RErr)
+    | Panic => (σ, RPanic)
+    end
   end.
 
 (* None = the property does not determine the outcome of this step *)
@@ -84,7 +91,7 @@ Definition step_spec (ς : sstate V) (o : op) : option (sstate V * outcome) :=
     end
   | OMemset t v => match spec_fill V ς t v with Some ς' => Some (ς', RUnit) | None => None end
   | OZero t => match spec_fill V ς t vzero with Some ς' => Some (ς', RUnit) | None => None end
-  | OClone t => match spec_copy_of V vzero ς t with Some (ς', t') => Some (ς', RNew t') | None => None end
+  | OClone t => match spec_copy_of V vzero ς t true with Some (ς', t') => Some (ς', RNew t') | None => None end
   | OMaterialize t same =>
     (* a view or lazily transposed tensor must come back as a fresh copy; a plain tensor may be
        returned as it is *)
@@ -92,13 +99,13 @@ Definition step_spec (ς : sstate V) (o : op) : option (sstate V * outcome) :=
     | None => None
     | Some x =>
       if s_view x || negb (Nat.eqb (s_pending x) 0) || negb same
-      then match spec_copy_of V vzero ς t with Some (ς', t') => Some (ς', RNew t') | None => None end
+      then match spec_copy_of V vzero ς t false with Some (ς', t') => Some (ς', RNew t') | None => None end
       else Some (ς, RNew t)
     end
   | OCopy d s => match spec_copy_into V vzero ς d s with Some ς' => Some (ς', RUnit) | None => None end
   | OSafeT t axes =>
     (* a fresh copy, lazily transposed *)
-    match spec_copy_of V vzero ς t with
+    match spec_copy_of V vzero ς t true with
     | None => None
     | Some (ς1, t') =>
       match spec_T V ς1 t' axes with
@@ -122,7 +129,7 @@ Definition step_spec (ς : sstate V) (o : op) : option (sstate V * outcome) :=
           let without := filter (fun i => negb (i =? axis)) ids in
           let axes := firstn (Z.to_nat start') without ++ [axis] ++ skipn (Z.to_nat start') without in
           if safe then
-            match spec_copy_of V vzero ς t with
+            match spec_copy_of V vzero ς t true with
             | None => None
             | Some (ς1, t') =>
               match spec_T V ς1 t' axes with
@@ -137,7 +144,7 @@ Definition step_spec (ς : sstate V) (o : op) : option (sstate V * outcome) :=
             end
     end
   | OApiTranspose t axes =>
-    match spec_copy_of V vzero ς t with
+    match spec_copy_of V vzero ς t true with
     | None => None
     | Some (ς1, t') =>
       match spec_T V ς1 t' axes with
@@ -146,6 +153,12 @@ Definition step_spec (ς : sstate V) (o : op) : option (sstate V * outcome) :=
       | Some None => Some (ς, RErr)
       | None => None
       end
+    end
+  | OReshape t dims refused =>
+    match spec_reshape V ς t dims refused with
+    | Some (Some ς') => Some (ς', RUnit)
+    | Some None => Some (ς, RErr)
+    | None => None
     end
   end.
 
@@ -161,6 +174,7 @@ Definition guard_op (σ : store V) (o : op) : gclass :=
   | OMaterialize t _ | OClone t => on t guard_read
   | OT t axes => on t (fun d => guard_T d axes)
   | OTranspose t => on t guard_transpose
+  | OReshape t _ _ => on t guard_transpose
   | OCopy dt st => on dt (fun d => on st (fun s => guard_copy d s))
   | OSafeT t axes => on t (fun d => guard_safeT d axes)
   | OApiTranspose t axes =>
@@ -188,6 +202,11 @@ Definition obs_model (σ : store V) (t : nat)
   match get_t V σ t with
   | None => ([], [], None, [], 0, O, 0, 0)
   | Some d => (shp (d_ap d), logical V σ t, data_obs σ d, str (d_ap d), ord (d_ap d), d_buf d, d_off d, d_len d)
+  end.
+Definition inv_model (σ : store V) (t : nat) : Z * Z * bool * bool :=
+  match get_t V σ t with
+  | None => (0, 0, false, false)
+  | Some d => let '(a, b) := meta_inv_obs d in (size (shp (d_ap d)), size (shp (d_ap d)), a, b)
   end.
 Definition ntens_model (σ : store V) : nat := length (tens V σ).
 
